@@ -21,3 +21,80 @@ Definition entry_meta (now : Z) (m : meta) : list Z :=
     cooldown_end P0 m; zb (on_cooldown P0 m now); next_refresh P0 m now; zb (should_refresh P0 m now);
     v_ends_in v; zb (v_active v); v_timeout_in v; v_expire_in v; v_next_refresh_in v;
     zb (v_cooldown v); v_cooldown_secs v; validity_code (validate true m now) ].
+
+(** * Session machine (Model/Machine.v) *)
+From WW Require Import Base.AMap Model.Machine.
+
+Definition zn (n : N) : Z := Z.of_N n.
+
+Definition obs_code (o : obs) : list Z :=
+  match o with
+  | ObNone => [0]
+  | ObGet k r => [1; zn k; r]
+  | ObSetKeep k r => [2; zn k; r]
+  | ObDel k r => [3; zn k; r]
+  | ObLock k r => [4; zn k; r]
+  | ObUnlock k r => [5; zn k; r]
+  | ObIdp rt r => [6; zn rt; r]
+  end.
+
+Definition outcome_code (c : config) (o : outcome) : list Z :=
+  match o with
+  | OForward a i => [1; match a with Some x => zn x | None => -1 end; match i with Some x => zn x | None => -1 end]
+  | OStatus s => [2; s]
+  | OMeta s d now =>
+    let v := verbose_of (c_tp c) (sd_md d) now in
+    [3; s; v_ends_in v; zb (v_active v); v_timeout_in v; v_expire_in v;
+     (if auto_refresh_disabled c then -1 else v_next_refresh_in v); zb (v_cooldown v); v_cooldown_secs v]
+  end.
+
+Fixpoint insert_sorted {A} (key : A -> N) (x : A) (l : list A) : list A :=
+  match l with
+  | [] => [x]
+  | y :: r => if N.leb (key x) (key y) then x :: l else y :: insert_sorted key x r
+  end.
+
+Definition sort_by {A} (key : A -> N) (l : list A) : list A := fold_right (insert_sorted key) [] l.
+
+Definition snapshot (w : world) : list Z :=
+  let now := w_clock w in
+  let es := sort_by fst (filter (fun ke => entry_live now (snd ke)) (w_store w)) in
+  let ls := sort_by fst (filter (fun kl => now <? l_exp (snd kl)) (w_locks w)) in
+  [Z.of_nat (length es)] ++
+  flat_map (fun ke => let e := snd ke in
+     let m := sd_md (e_data e) in
+     [zn (fst ke); match e_exp e with Some x => x - now | None => -1 end; zn (e_dek e);
+      zn (sd_at (e_data e)); zn (sd_rt (e_data e)); zn (sd_acr (e_data e));
+      created m; ends m; match timeout m with Some t => t | None => -1 end; expire m; refreshed m]) es ++
+  [Z.of_nat (length ls)] ++
+  flat_map (fun kl => [zn (fst kl); l_exp (snd kl) - now]) ls.
+
+Definition event_thread (e : event) : option N :=
+  match e with ERun t _ => Some t | ESpawn t _ _ => Some t | _ => None end.
+
+Definition thread_outcome (c : config) (s : mstate) (e : event) : list Z :=
+  match event_thread e with
+  | Some t => match alookup t (m_ts s) with
+              | Some th => match t_phase th with PDone o => outcome_code c o | _ => [0] end
+              | None => [0]
+              end
+  | None => [0]
+  end.
+
+(* per event: observation of the operation, outcome if the thread finished, snapshot of store and locks *)
+Fixpoint run_observe (c : config) (s : mstate) (es : list event) : list (list Z) :=
+  match es with
+  | [] => []
+  | e :: r => let '(s', o) := apply_event c s e in
+              (obs_code o ++ [-7] ++ thread_outcome c s' e ++ [-7] ++ snapshot (m_w s')) :: run_observe c s' r
+  end.
+
+Definition mk_config (redis sso fwd : bool) (inact : option Z) (maxlife : Z) (acr pacr : N) (idtok autologin : bool)
+           (upd_atomic memlock logout_strict : bool) : config :=
+  {| c_redis := redis; c_sso := sso; c_fwdauth := fwd; c_inact := inact; c_maxlife := maxlife; c_acr := acr; c_proxy_acr := pacr;
+     c_idtoken := idtok; c_autologin := autologin; c_upd_atomic := upd_atomic; c_memlock := memlock;
+     c_logout_strict := logout_strict; c_tp := P0; c_lock_lease := lock_duration;
+     c_lock_timeout := lock_acquire_timeout; c_retry_max := retry_max |}.
+
+Definition entry_machine (c : config) (tau : Z) (es : list event) : list (list Z) :=
+  run_observe c (init_state tau) es.
